@@ -352,3 +352,71 @@ Section EndToEnd.
     - change (VStruct fa :: post) with ([VStruct fa] ++ post) in H. rewrite fold_app, !fold_panic in H. discriminate.
   Qed.
 End EndToEnd.
+
+(* ---- field order: fields appear in first-seen order, are never removed or renamed ---- *)
+Definition add_name (acc : list bytes) (k : bytes) : list bytes := if existsb (bytes_eqb k) acc then acc else acc ++ [k].
+Definition add_names (acc : list bytes) (ks : list bytes) : list bytes := fold_left add_name ks acc.
+
+Lemma bytes_eqb_sym x y : bytes_eqb x y = bytes_eqb y x.
+Proof.
+  destruct (bytes_eqb x y) eqn:E1, (bytes_eqb y x) eqn:E2; try reflexivity.
+  - apply bytes_eqb_eq in E1. subst. rewrite bytes_eqb_refl in E2. discriminate.
+  - apply bytes_eqb_eq in E2. subst. rewrite bytes_eqb_refl in E1. discriminate.
+Qed.
+
+Lemma find_none_names fs key : find_field_idx fs key = None <-> existsb (bytes_eqb key) (map fname3 fs) = false.
+Proof.
+  induction fs as [|[[n t] ls] r IH]; cbn [find_field_idx map existsb fname3 fst]; [tauto|].
+  rewrite (bytes_eqb_sym key n). destruct (bytes_eqb n key) eqn:E; cbn [orb].
+  - split; discriminate.
+  - destruct (find_field_idx r key) as [[t' i]|]; [split; [discriminate|]|]; rewrite <- IH; [discriminate|tauto].
+Qed.
+
+Lemma sf_names tr key seen fs fs' : struct_field tr key seen fs = Ok fs' -> map fname3 fs' = add_name (map fname3 fs) key.
+Proof.
+  intros H. unfold add_name. destruct (struct_field_cases tr key seen fs fs' H) as [(t & i & ls & t' & Ef & _ & _ & ->)|(t' & Ef & _ & ->)].
+  - rewrite set_field_names. destruct (existsb (bytes_eqb key) (map fname3 fs)) eqn:E; [reflexivity|]. apply find_none_names in E. congruence.
+  - apply find_none_names in Ef. rewrite Ef, map_app. reflexivity.
+Qed.
+
+Lemma struct_end_names seen fs : map fname3 (struct_end seen fs) = map fname3 fs.
+Proof. unfold struct_end. rewrite map_map. apply map_ext. intros [[n t] ls]. destruct (Nat.eqb ls seen); reflexivity. Qed.
+
+Lemma sfields_names o d seen : forall fa fs fs', sfields (trace o) d seen fa fs = Ok fs' -> map fname3 fs' = add_names (map fname3 fs) (map fst fa).
+Proof.
+  induction fa as [|[key x] r IH]; intros fs fs' H; cbn [sfields] in H; [injection H as <-; reflexivity|].
+  apply bind_ok in H as (acc & Hf & H). rewrite (IH acc fs' H), (sf_names _ key seen fs acc Hf). reflexivity.
+Qed.
+
+(* one record sample: the field names grow by the new keys, in the order of their first occurrence *)
+Theorem record_sample_names o d fa t t' : trace o d (VStruct fa) t = Ok t' ->
+  exists n m s fs', t' = TStruct n m s fs' /\
+    map fname3 fs' = add_names (match t with TStruct _ _ _ fs => map fname3 fs | _ => [] end) (map fst fa).
+Proof.
+  intros H. rewrite trace_struct_eq in H. apply bind_ok in H as (t0 & He & H).
+  unfold ensure_struct in He. destruct (Nat.leb max_depth d); [discriminate|]. destruct (upgradable t) eqn:Eu.
+  - injection He as <-. apply bind_ok in H as (fs' & Hl & H). injection H as <-. do 4 eexists. split; [reflexivity|].
+    rewrite struct_end_names, (sfields_names o d 0 fa [] fs' Hl). destruct t as [| n []| | |? ? ? fs0| |]; try discriminate Eu; reflexivity.
+  - destruct t as [| | | |n m s fs0| |]; try discriminate He. injection He as <-. apply bind_ok in H as (fs' & Hl & H). injection H as <-.
+    do 4 eexists. split; [reflexivity|]. rewrite struct_end_names, (sfields_names o d s fa fs0 fs' Hl). reflexivity.
+Qed.
+
+(* a collection of record samples: the fields of the result are all keys, in first-seen order *)
+Theorem record_collection_names o d : forall samples t t',
+  Forall (fun v => exists fa, v = VStruct fa) samples ->
+  (match t with TStruct _ _ _ _ | TUnknown _ => True | _ => False end) ->
+  samples <> [] -> trace_seq' o d samples (Ok t) = Ok t' ->
+  exists n m s fs', t' = TStruct n m s fs' /\
+    map fname3 fs' = fold_left (fun acc v => match v with VStruct fa => add_names acc (map fst fa) | _ => acc end) samples
+                               (match t with TStruct _ _ _ fs => map fname3 fs | _ => [] end).
+Proof.
+  induction samples as [|v r IH]; intros t t' HF Ht Hne H; [congruence|]. cbn [trace_seq' fold_left bind] in H.
+  destruct (Forall_inv HF) as (fa & ->). destruct (trace o d (VStruct fa) t) as [t1| |p] eqn:E.
+  - destruct (record_sample_names o d fa t t1 E) as (n1 & m1 & s1 & fs1 & -> & Hn1).
+    destruct r as [|v2 r2].
+    + injection H as <-. do 4 eexists. split; [reflexivity|]. cbn [fold_left]. exact Hn1.
+    + destruct (IH (TStruct n1 m1 s1 fs1) t' (Forall_inv_tail HF) I ltac:(discriminate) H) as (n & m & s & fs' & -> & Hn).
+      do 4 eexists. split; [reflexivity|]. rewrite Hn. cbn [fold_left]. rewrite Hn1. reflexivity.
+  - fold (trace_seq' o d r Err) in H. rewrite fold_err in H. discriminate.
+  - fold (trace_seq' o d r (Panic p)) in H. rewrite fold_panic in H. discriminate.
+Qed.
